@@ -288,6 +288,51 @@ fn main() {
         }
     }
 
+    // 0a. comments that LOOK like long-bracket openers (`--[= x` is a line comment, `--[=[ x ]=]` is not) after the
+    //     last token of the sub-expressions that lowering rules rebuild from token-less nodes: whatever the generator
+    //     writes next must not be swallowed by the comment
+    {
+        let comments = ["--[= item", "--[== todo", "--[=", "--[ [x", "--[=x[ y", "--[=[ b ]=]", "--[[ b ]]", "--[==[ ]] ]==]", "--[[\nb ]]", "-- [[x"];
+        let templates = [
+            "local t = {}\nreturn `v: {t %C\n} and {t %C\n}`\n",
+            "local a = 1\na += 2 %C\nreturn a %C\n",
+            "local a, b = 7, 2\nreturn a // b %C\n",
+            "local o = {}\nreturn if o %C\nthen 1 %C\nelse 2 %C\n",
+            "local t = { f = function() end }\nt:f( %C\n)\nreturn t %C\n",
+            "for i = 1, 2 do\n if i == 1 then continue %C\n end\nend %C\n",
+            "local x: number %C\n= 1\nreturn x :: any %C\n",
+            "local t = { 1_0 %C\n, 0b1 %C\n}\nreturn t[1] %C\n",
+        ];
+        let lowering = [
+            "\"remove_interpolated_string\"", "\"remove_compound_assignment\"", "\"remove_floor_division\"", "\"remove_if_expression\"",
+            "\"remove_method_call\"", "\"remove_continue\"", "\"remove_types\"", "\"convert_luau_number\"", "\"compute_expression\"",
+        ];
+        for template in templates {
+            for comment in comments {
+                let source = template.replace("%C", comment).replace("\\n", "\n");
+                for rule in lowering {
+                    for rules in [format!("\"remove_spaces\", {}", rule), format!("{}, \"remove_spaces\"", rule), rule.to_owned()] {
+                        let config = format!("{{ generator: \"retain_lines\", rules: [{}] }}", rules);
+                        process_runs += 1;
+                        match process_guarded(source.clone(), config.clone()) {
+                            Outcome::Done(Ok(output)) => {
+                                if !check_parse(output.as_bytes(), "darklua-output", &mut hung) {
+                                    report("OUTPUT-UNPARSABLE", &output, &config, source.as_bytes());
+                                }
+                            }
+                            Outcome::Done(Err(_)) => rule_errors += 1,
+                            Outcome::Panic(msg) => report("PROCESS-PANIC", &msg, &config, source.as_bytes()),
+                            Outcome::Hang => {
+                                report("PROCESS-HANG", "no result within the time limit", &config, source.as_bytes());
+                                hung = true;
+                            }
+                        }
+                    }
+                }
+            }
+        }
+    }
+
     // 0b. small bundles: a required module whose last statement carries a `;` (with a comment after it), entries shorter
     //     and longer than the module, every generator: inlining re-bases every token of the module
     {
